@@ -35,4 +35,34 @@ CHECKS = {
           'identity under keyword permutation, eq/hash coherence, option read-back and the kwargs round trip are asserted on every configuration created.',
   'note': 'Bounded exploration (about 1.2k histories quick, 40k thorough); value pools are finite and hand-chosen from the documented option types; thread identity is covered by C15.',
  },
+ 'C04': {
+  'technique': 'property-based testing: generated signatures x call shapes, differential against the interpreter\'s own binder (undecorated twin); exhaustive enumeration of small signatures in the thorough tier',
+  'text': 'Signatures over the five parameter kinds (any annotated subset, any defaults incl. hint-violating ones, optional return annotation) and call shapes '
+          '(positional/keyword mixes, missing, surplus, duplicate, keywords colliding with positional-only names) are generated; an undecorated twin returning '
+          'dict(locals()) decides whether and how the call binds. Asserted: conforming calls run the original exactly once with the identical objects and return/raise '
+          'the identical object; a violating bound value raises a parameter violation naming a violating parameter without running the original; unbindable calls raise '
+          'TypeError or a parameter violation without running it; unpassed defaults are never checked; violating returns raise the return violation.',
+  'note': 'Bounded: <= 9 parameters, 4 draw-independent hints; thorough tier enumerates all signatures with <= 3 parameters x calls with <= 3 positional and <= 2 keyword arguments. Trusted: CPython argument binding.',
+ },
+ 'C12': {
+  'technique': 'property-based testing: generated validator expression trees and objects, reference evaluator of the boolean meaning',
+  'text': 'Validator trees over Is/IsAttr/IsEqual/IsInstance/IsSubclass with & | ~ (depth <= 5 quick / 8 thorough, 1-3 per Annotated, attribute names colliding after mangling) '
+          'and objects shaped after the expressions (nested attribute bags, missing attributes, classes and non-classes) are generated; is_valid, is_bearable, '
+          'die_if_unbearable, a decorated call, get_diagnosis and the diagnosis block of the violation message must all equal my evaluator of the boolean meaning.',
+  'note': 'Bounded exploration; predicates are named total functions; trusted: the 20-line evaluator meaning() in vlib/props/c12.py.',
+ },
+ 'C18': {
+  'technique': 'property-based testing: metamorphic relation conf-rewritten hint vs hand-rewritten hint under the same controlled draw',
+  'text': 'float / complex / overridden sub-hints are injected at generated depths of grammar hints; my own structural rewrite produces the hand-written hint; all six '
+          'entry points must give the same verdict and signal class for (H, is_pep484_tower/hint_overrides conf) and (rewritten H, same conf without them) for each draw, '
+          'with violation_* options varied on both sides.',
+  'note': _GRAMMAR_NOTE + ' Override keys are restricted to hints that occur only as ordinary sub-hints (see evidence assumptions).',
+ },
+ 'C19': {
+  'technique': 'property-based testing: widening-chain generator for (A, B, C), algebraic laws + object-level soundness against the reference semantics and is_bearable',
+  'text': 'Triples are generated as widening chains (so that the relation holds often) or at random, plus literal look-alike probes; reflexivity, transitivity on '
+          'beartype\'s answers, soundness on objects built to conform to A (checked against B by is_bearable for every draw and by the reference semantics), and the '
+          'TypeHint laws (memoisation, eq => equal hash and mutual subhints, len/iter/getitem/contains coherence) are asserted.',
+  'note': _GRAMMAR_NOTE + ' Completeness of is_subhint is not asserted; undecidable answers (documented exception) are counted as unanswered; Hashable is excluded (issubclass(Collection, Hashable) is True in Python itself).',
+ },
 }
